@@ -206,6 +206,14 @@ func (w *World) monitorPaths() {
 // C14
 
 func planC14(prop string, seed uint64, tier string, idx int) *Plan {
+	if idx%8 == 7 {
+		// legacy layouts and interrupted conversions opened read-only (convert engine)
+		p := planC17(prop, seed, tier, idx)
+		p.Knobs.Store = "dir" // the conversion whose crash points are taken is the directory store's
+		p.Extra["ro"] = true
+		p.Profile = "read-only on legacy layouts and interrupted conversions"
+		return p
+	}
 	g := newGen(seed, tier)
 	g.p.Profile = "read-only"
 	g.repos(g.r.between(1, 3))
